@@ -9,7 +9,7 @@ import ast
 import pathlib
 
 KINDS = ["reformat", "rename-locals", "add-statement", "sql-whitespace", "rename+add", "messages", "strip-local-annotations",
-         "return-temp", "reorder-keywords", "annotate-locals", "hoist-condition", "swap-if-else", "else-after-return"]
+         "return-temp", "reorder-keywords", "annotate-locals", "hoist-condition", "swap-if-else", "else-after-return", "split-and"]
 
 
 class LocalRenamer(ast.NodeTransformer):
@@ -285,6 +285,19 @@ class ElseAfterReturn(ast.NodeTransformer):
         return node
 
 
+class SplitAnd(ast.NodeTransformer):
+    """`if A and B: body` (no else) becomes `if A:` / `if B: body`."""
+
+    def visit_If(self, node):
+        self.generic_visit(node)
+        if not node.orelse and isinstance(node.test, ast.BoolOp) and isinstance(node.test.op, ast.And) and not any(isinstance(x, ast.NamedExpr) for x in ast.walk(node.test)):
+            first, rest = node.test.values[0], node.test.values[1:]
+            inner_test = rest[0] if len(rest) == 1 else ast.BoolOp(op=ast.And(), values=rest)
+            inner = ast.If(test=inner_test, body=node.body, orelse=[])
+            return ast.copy_location(ast.If(test=first, body=[ast.copy_location(inner, node)], orelse=[]), node)
+        return node
+
+
 class SqlWhitespace(ast.NodeTransformer):
     """Collapse runs of whitespace inside SQL string constants (line-comment free ones only)."""
 
@@ -333,6 +346,9 @@ def make_variant(kind, dst, repo="/repo"):
             ast.fix_missing_locations(tree)
         elif kind == "else-after-return":
             tree = ElseAfterReturn().visit(tree)
+            ast.fix_missing_locations(tree)
+        elif kind == "split-and":
+            tree = SplitAnd().visit(tree)
             ast.fix_missing_locations(tree)
         elif kind == "messages":
             tree = EditMessages().visit(tree)
